@@ -199,7 +199,7 @@ func (ex *Exec) evalPlace(env *SpecEnv, e *SExpr) (*Loc, bool) {
 		bv := ex.evalSpec(env, e.Args[0])
 		if sl, ok := types.Unalias(bv.T).Underlying().(*types.Slice); ok {
 			idx := ex.evalSpec(env, e.Args[1]).S()
-			return &Loc{Kind: locElem, Base: bv.L[0], Idx: Add(bv.L[1], idx), Obj: sl.Elem(), T: sl.Elem()}, true
+			return &Loc{Kind: locElem, Base: bv.L[0], Off: bv.L[1], Idx: idx, Obj: sl.Elem(), T: sl.Elem()}, true
 		}
 		return nil, false
 	case "id":
